@@ -44,8 +44,16 @@ pub fn generate(rng: &mut Rng, seed: u64, run: u64, max_len: usize) -> Trace {
         let text_len = expected_tagged(&wl.bytes).len();
         gen_faults(rng, text_len, &[], true)
     };
-    Trace { prop: "C18".into(), surface: surface.into(), input: wl.bytes, ops, faults, params: vec![], seed, run }
+    let mut params = Vec::new();
+    if rng.chance(1, 6) {
+        // a second, independent console stream is fed between the calls of this one
+        params.push(("twin_stream".to_string(), 1));
+    }
+    Trace { prop: "C18".into(), surface: surface.into(), input: wl.bytes, ops, faults, params, seed, run }
 }
+
+/// What the twin console stream is fed in irregular pieces (see c06.rs).
+const TWIN_INPUT: &str = "\x1b[1;31mred\x1b[0m \x1b]0;title\x07plain \u{20ac}\u{1f600} \x1b[38;5;12;48;5;3mX\x1b[m\x1bPq#payload\x1b\\tail\n\x1b[92;104m\u{e9}nd\x1b[39m ";
 
 /// Independent reduction of a colour to the 16-colour console palette: 0 = default.
 fn cap(c: Option<anstyle::Color>) -> u8 {
@@ -296,6 +304,10 @@ pub fn execute(t: &Trace, stats: &mut Stats, record: bool) -> Outcome {
 
     let stride = check_stride(t.ops.len());
     let mut since_check = 0usize;
+    let twin_console = SimConsole::new(vec![], false);
+    let twin_h = twin_console.clone();
+    let mut twin = if t.param("twin_stream") == Some(1) { Some(wincon_port::WinconStream::new(twin_console)) } else { None };
+    let (mut twin_fed, mut twin_steps) = (0usize, 0usize);
     let mut ops: Vec<Op> = t.ops.clone();
     let mut i = 0usize;
     let mut budget = 2 * n as u64 + 64 + 2 * t.faults.iter().map(|f| f.times as u64).sum::<u64>();
@@ -309,6 +321,15 @@ pub fn execute(t: &Trace, stats: &mut Stats, record: bool) -> Outcome {
                 break;
             }
             budget -= 1;
+        }
+        if let Some(tw) = twin.as_mut() {
+            let b = TWIN_INPUT.as_bytes();
+            let k = 1 + (twin_steps * 7 + twin_steps / 3) % 6;
+            twin_steps += 1;
+            let from = twin_fed % b.len();
+            let to = (from + k).min(b.len());
+            let _ = tw.write_all(&b[from..to]);
+            twin_fed += to - from;
         }
         let op = ops[i].clone();
         i += 1;
@@ -504,6 +525,25 @@ pub fn execute(t: &Trace, stats: &mut Stats, record: bool) -> Outcome {
         let d = delivered_tagged(&h);
         if d != whole {
             violation = Some(viol(mismatch_class(&d, &whole), format!("end of history: console received {} expected {}", show(&d), show(&whole))));
+        }
+    }
+    if twin.is_some() {
+        stats.probe("twin_stream_interleaved");
+        let b = TWIN_INPUT.as_bytes();
+        let mut whole = Vec::new();
+        let mut left = twin_fed;
+        while left > 0 {
+            let n = left.min(b.len());
+            whole.extend_from_slice(&b[..n]);
+            left -= n;
+        }
+        let want = expected_tagged(&whole);
+        let got = delivered_tagged(&twin_h);
+        if got != want && violation.is_none() {
+            violation = Some(viol(
+                "twin-corrupted",
+                format!("a second, independent console stream fed {:?} in pieces between the calls of the stream under test handed over {} expected {}", lossy(&whole), show(&got), show(&want)),
+            ));
         }
     }
     if violation.is_none() && !client_wrote_after_error {
